@@ -871,6 +871,34 @@ def gt_staleexec(ctx: Ctx) -> RuleResult:
     return r
 
 
+def gt_execsetup(ctx: Ctx) -> RuleResult:
+    """`executor.setup()` sets up the executor's OWN selection: the graph it reduces to setup nodes is (a copy of) the graph the
+    executor derived when it was created - not a selection derived again from some of its fields (a cache_deps_of executor has
+    target / exclude / root all None: re-deriving from them selects the whole DAG)."""
+    r = RuleResult("GT-EXECSETUP")
+    base = ctx.P.classes.get(ctx.cls_q("BaseDAGExecution"))
+    r.require(base is not None, "executor base class not found")
+    n = 0
+    for ci in [base] + list(ctx.P.subclasses(base.qualname)):
+        m = ci.methods.get("setup")
+        if m is None:
+            continue
+        n += 1
+        uses_own = any(isinstance(x, ast.Attribute) and x.attr == "graph" and dotted(x.value) == "self" for x in iter_own_nodes(m.node))
+        rederive = [c for c in iter_own_nodes(m.node) if isinstance(c, ast.Call) and (dotted(c.func) or "").split(".")[-1] in ("make_subgraph", "_pre_setup", "setup")
+                    and (dotted(c.func) or "").startswith("self.dag")]
+        ok = uses_own and not rederive
+        r.ob(ok, {"in": m.short, "reduces the executor's own graph": uses_own, "derives a selection again": [norm_src(c)[:80] for c in rederive]})
+        if rederive:
+            r.violate(f"{m.short}: the selection is derived again instead of taken from the executor's own graph", m.loc(rederive[0]),
+                      "executor(cache_deps_of=[n]).setup() must run the setup nodes n depends on; derived again from target / exclude / "
+                      "root (all None for such an executor) the selection is the whole DAG: every setup node runs", norm_src(rederive[0])[:120])
+        elif not uses_own:
+            raise Undecided(f"{m.short}: where the graph of the setup run comes from is not recognised")
+    r.require(n >= 2, f"executor setup methods found: {n}")
+    return r
+
+
 def gt_gateexact(ctx: Ctx) -> RuleResult:
     """The debug gate returns the graph induced by exactly the nodes it computed: the selection (plus / minus debug nodes).
 
@@ -1926,6 +1954,7 @@ RULES = {
     "GT-STALEEXEC": gt_staleexec,
     "GT-STALEGATE": gt_stalegate,
     "GT-GATEEXACT": gt_gateexact,
+    "GT-EXECSETUP": gt_execsetup,
     "GT-NORECURSE": gt_norecurse,
     "GT-DEFAULTSEL": gt_defaultsel,
     "GT-MODEL": gt_model, "GT-CARRY": gt_carry, "GT-PRIO-SINK": gt_prio_sink, "GT-POP": gt_pop, "GT-FORMULA": gt_formula,
